@@ -245,7 +245,17 @@ class Gen:
         t = self.tag
         base, a, b, c = f"D{t}_base", f"D{t}_a", f"D{t}_b", f"D{t}_c"
         own = {}
-        for nm, bases in ((base, []), (a, [base]), (b, [base]), (c, [a, b])):
+        # classes without an __init__ of their own in front of / inside the diamond: a mixin listed first, an empty intermediate subclass
+        variant = self.rnd.choice(["plain", "plain", "mixin-first", "empty-intermediate"])
+        c_bases = [a, b]
+        if variant == "mixin-first":
+            self.lines.append(f"class D{t}_mixin:\n    def helper(self):\n        return 1\n")
+            c_bases = [f"D{t}_mixin", a, b]
+        elif variant == "empty-intermediate":
+            c_bases = [f"D{t}_a2", b]
+        for nm, bases in ((base, []), (a, [base]), (b, [base]), (c, c_bases)):
+            if nm == c and variant == "empty-intermediate":
+                self.lines.append(f"class D{t}_a2({a}):\n    pass\n")
             ps = self.params(self.rnd.randint(1, 2))
             own[nm] = {n: (ty, dv) for n, ty, dv in ps}
             s = self.sig(ps)
@@ -258,7 +268,7 @@ class Gen:
         self.models[b] = {**own[b], **own[base]}
         self.models[c] = {**own[c], **own[a], **own[b], **own[base]}
         for nm, d in ((base, 1), (a, 2), (b, 2), (c, 3)):
-            self.patterns[nm] = ["diamond"]
+            self.patterns[nm] = ["diamond"] + (["diamond:" + variant] if nm == c and variant != "plain" else [])
             self.depth[nm] = d
         self.multi.add(c)
 
